@@ -45,6 +45,10 @@ pub struct TrainSpec {
     /// default hybrid locomotives appended to the generated units
     #[serde(default)]
     pub hybrids: usize,
+    /// the consist is first created from its fuel-only units and then given the complete list
+    /// through `set_loco_vec` (a consist object re-used for another composition)
+    #[serde(default)]
+    pub late_battery: bool,
 }
 
 impl CarSpec {
@@ -145,6 +149,29 @@ impl TrainSpec {
     }
 
     pub fn build_consist(&self, save_interval: Option<usize>) -> anyhow::Result<Consist> {
+        let c = self.build_consist_direct(save_interval)?;
+        if !self.late_battery || self.dummy {
+            return Ok(c);
+        }
+        let all = c.loco_vec.clone();
+        let fuel_only: Vec<Locomotive> = all.iter().filter(|l| l.reversible_energy_storage().is_none()).cloned().collect();
+        if fuel_only.is_empty() || fuel_only.len() == all.len() {
+            return Ok(c);
+        }
+        let mut c2 = Consist::new(fuel_only, save_interval, c.pdct.clone());
+        // touching the count now is what a caller that asks for it would do
+        let _ = c2.n_res_equipped();
+        // through the setter, or (odd number of units) through the public field itself
+        if all.len() % 2 == 0 {
+            c2.set_loco_vec(all);
+        } else {
+            c2.loco_vec = all;
+        }
+        c2.set_save_interval(save_interval);
+        Ok(c2)
+    }
+
+    fn build_consist_direct(&self, save_interval: Option<usize>) -> anyhow::Result<Consist> {
         if self.dummy {
             let mut l = Locomotive::default();
             l.loco_type = PowertrainType::DummyLoco(DummyLoco::default());
@@ -200,6 +227,27 @@ impl TrainSpec {
         init_speed: Option<f64>,
     ) -> anyhow::Result<TrainSimBuilder> {
         self.build_builder_init_at(save_interval, od, init_speed, 0.0)
+    }
+
+    pub fn build_builder_init_abs(
+        &self,
+        save_interval: Option<usize>,
+        od: Option<(&str, &str)>,
+        init_speed: Option<f64>,
+        offset_extra: f64,
+        offset_abs: Option<f64>,
+    ) -> anyhow::Result<TrainSimBuilder> {
+        match offset_abs {
+            None => self.build_builder_init_at(save_interval, od, init_speed, offset_extra),
+            Some(x) => Ok(TrainSimBuilder::new(
+                "t".into(),
+                self.build_config()?,
+                self.build_consist(save_interval)?,
+                od.map(|x| x.0.to_string()),
+                od.map(|x| x.1.to_string()),
+                Some(InitTrainState::new(Some(uc::S * self.init_time), Some(uc::M * x), init_speed.map(|v| uc::MPS * v))),
+            )),
+        }
     }
 
     /// `offset_extra` > 0: initial offset = train length + offset_extra
@@ -286,6 +334,20 @@ pub fn gen_train(g: &mut Gen, o: &TrainOpts) -> TrainSpec {
             c.n = c.n.max(3.min(per));
         }
         cars.push(c);
+        // a car type may be listed without any car of it being in the train (count 0): it must
+        // not influence length, mass, speed or resistance; inserted before or after the type
+        // just generated
+        if g.bool(0.08) {
+            let mut z = gen_car(g, ["Hopper", "Gondola", "Flat", "Reefer", "Caboose"][t], 5);
+            z.n = 0;
+            z.speed_max = g.grid(6.0, 12.0, 12);
+            if g.bool(0.5) {
+                let at = cars.len() - 1;
+                cars.insert(at, z);
+            } else {
+                cars.push(z);
+            }
+        }
     }
     let train_type = g.int(1, 3) as u8;
     let mut spec = TrainSpec {
@@ -298,6 +360,7 @@ pub fn gen_train(g: &mut Gen, o: &TrainOpts) -> TrainSpec {
         pdct: 0,
         init_time: 0.0,
         hybrids: 0,
+        late_battery: false,
     };
     if o.allow_overrides {
         if g.bool(0.15) {
